@@ -2,12 +2,12 @@
    AST on every run) are the expressions the hand-written model uses.  Every lemma is an obligation of the tie: when an
    expression of the code changes, the generated file changes with it and the lemma stops compiling even if no sampled input
    tells old and new behaviour apart.  Statements: the model's definition equals the translated expression, for all arguments. *)
-From Aldy Require Import Base Consts Filter MajorModel Exprs_cov.
+From Aldy Require Import Base Consts Filter MajorModel Exprs_cov TieTac.
 Import List.
 Open Scope Q_scope.
 
 (* coverage.py single_copy as used by the major model *)
 Lemma single_copy_major_tied : forall I cv m,
-  single_copy_cv I cv m = if single_copy_zero (pcn I (fst m)) then 0 else single_copy_val (inZ (total cv m)) (pcn I (fst m)).
-Proof. reflexivity. Qed.
+  single_copy_cv I cv m == if single_copy_zero (pcn I (fst m)) then 0 else single_copy_val (inZ (total cv m)) (pcn I (fst m)).
+Proof. first [reflexivity | intros; unfold single_copy_cv, single_copy_zero, single_copy_val; tie_q]. Qed.
 
